@@ -15,7 +15,7 @@ import (
 // called by this trigger (nor by later ones). Unhooking a hook that already ran only affects later triggers.
 func TestHookUnhooksAnotherDuringTrigger(t *testing.T) {
 	const check = "hook_unhooks_another_during_trigger"
-	stats.Rule(check, "one event (arity 0/1/2, no worker pool), 2..7 synchronous hooks; a drawn hook (the killer) unhooks another drawn hook (the victim) when it is called for the first time; the event is triggered twice (20 s watchdog). Oracle: trigger 1 calls the hooks in attachment order - without the victim if it is attached behind the killer (also when it is the direct successor), with it if it is attached before the killer; trigger 2 calls all hooks but the victim; arguments are those of the respective trigger. Distinct by configuration; non-trivial = the victim is the killer's direct successor")
+	stats.Rule(check, "one event (arity 0/1/2, no worker pool), 2..7 synchronous hooks; a drawn hook (the killer) unhooks another drawn hook (the victim) when it is called for the first time, in half of the cases after it has unhooked itself (one-shot hook); the event is triggered twice (20 s watchdog). Oracle: trigger 1 calls the hooks in attachment order - without the victim if it is attached behind the killer (also when it is the direct successor), with it if it is attached before the killer; trigger 2 calls all hooks but the victim (and the killer if it unhooked itself); arguments are those of the respective trigger. Distinct by configuration; non-trivial = the victim is the killer's direct successor")
 	rapid.Check(t, func(rt *rapid.T) {
 		arity := rapid.IntRange(0, 2).Draw(rt, "arity")
 		n := rapid.IntRange(2, 7).Draw(rt, "hooks")
@@ -24,7 +24,9 @@ func TestHookUnhooksAnotherDuringTrigger(t *testing.T) {
 		if victim >= killer {
 			victim++
 		}
-		desc := fmt.Sprintf("arity=%d hooks=%d killer=h%d victim=h%d", arity, n, killer, victim)
+		// the killer may be a one-shot hook that unhooks itself first: the iteration then stands on a removed hook
+		selfToo := rapid.Bool().Draw(rt, "killerUnhooksItselfFirst")
+		desc := fmt.Sprintf("arity=%d hooks=%d killer=h%d victim=h%d killerUnhooksItselfFirst=%v", arity, n, killer, victim, selfToo)
 		var cur atomic.Int64
 		ev := newEvAPI(arity, &cur)
 		var calls []string
@@ -36,6 +38,9 @@ func TestHookUnhooksAnotherDuringTrigger(t *testing.T) {
 				calls = append(calls, fmt.Sprintf("h%d(%d)", i, arg))
 				if i == killer && !fired {
 					fired = true
+					if selfToo {
+						unhooks[killer]()
+					}
 					unhooks[victim]()
 				}
 			})
@@ -48,7 +53,7 @@ func TestHookUnhooksAnotherDuringTrigger(t *testing.T) {
 			want = append(want, fmt.Sprintf("h%d(%d)", i, 1))
 		}
 		for i := 0; i < n; i++ {
-			if i != victim {
+			if i != victim && !(selfToo && i == killer) {
 				want = append(want, fmt.Sprintf("h%d(%d)", i, 2))
 			}
 		}
